@@ -117,7 +117,7 @@ Print Assumptions C43_unsubscribed_name_not_requested.
    justified by the op - ResourceChanged only with a valid resource of the response or, on a new
    watch, the resource a peer watcher holds, delivered first; NACK errors only for an invalid
    entry; 'does not exist' only for a resource missing from a SotW response without
-   ignore_resource_deletion, or on expiry; nothing on cancel or on ops not applied; clause 5:
+   ignore_resource_deletion, or on expiry of the timer of a watcher that holds no valid resource; nothing on cancel or on ops not applied; clause 5:
    every request lists exactly the names that have a watcher; clause 6: a stream failing before
    any response gives every watcher exactly one connection error, after a response none).
    For every configuration and every op list, of any length, ALL these clauses hold on the
